@@ -518,7 +518,7 @@ def atheris_campaigns(ctx, n_procs, runs):
 
 def run(ctx):
     if ctx.tier == 'quick':
-        core.run_sharded(ctx, __name__, 'shard', 1, (1500, 800, 25))
+        core.run_sharded(ctx, __name__, 'shard', 4, (450, 250, 8))
     else:
         core.run_sharded(ctx, __name__, 'shard', getattr(ctx, 'shards_override', None) or 16, (20000, 10000, 60))
         with ctx.timed('atheris'):
